@@ -519,6 +519,88 @@ def gen_schema(outdir):
 
 
 # --------------------------------------------------------------------------------------------------
+# --------------------------------------------------------------------------------------------------
+# C08 / C09: relying-party message schemas and verification constants  ->  Gen/RpTables.v
+# --------------------------------------------------------------------------------------------------
+def gen_rp_tables(outdir):
+    """Gen/RpTables.v: the c_param tables (name, type code, required; declaration order) of IdToken,
+    oidc.AuthorizationResponse, oidc.AccessTokenResponse and OpenIDSchema, ID_TOKEN_VERIFY_ARGS, IDT2REG,
+    CLAIMS_WITH_VERIFIED, the verified-claim prefix and NONCE_STORAGE_TIME.  Type codes: Lib/RpTy.v."""
+    from idpyoidc import message as M
+    from idpyoidc.message import oidc
+    from idpyoidc.message import Message
+    from idpyoidc.client.oidc import IDT2REG
+    import idpyoidc
+
+    def code(name, cls, spec):
+        if not (isinstance(spec, tuple) and len(spec) == 5):
+            raise Untranslatable("%s.c_param[%r] = %r" % (cls, name, spec))
+        vtyp, req, ser, deser, na = spec
+        if not isinstance(req, bool):
+            raise Untranslatable("%s.c_param[%r] required flag %r" % (cls, name, req))
+        if na is not False:
+            return "COther", req
+        if vtyp is str and ser is None and deser is None:
+            return "CStr", req
+        if vtyp is int and ser is None and deser is None:
+            return "CInt", req
+        if vtyp is bool and ser is None and deser is None:
+            return "CBool", req
+        if vtyp == [str] and ser is M.list_serializer and deser is M.list_deserializer:
+            return "CStrList", req
+        if vtyp == [str] and ser is M.sp_sep_list_serializer and deser is M.sp_sep_list_deserializer:
+            return "CSpList", req
+        if vtyp is Message and ser is M.msg_ser and deser is None:
+            return "CJwt", req
+        return "COther", req
+
+    def table(defname, cls):
+        if cls.c_allowed_values:
+            raise Untranslatable("%s.c_allowed_values is not empty: %r" % (cls.__name__, cls.c_allowed_values))
+        if "*" in cls.c_param:
+            raise Untranslatable("%s.c_param has a wildcard entry" % cls.__name__)
+        rows = []
+        for name, spec in cls.c_param.items():
+            if not isinstance(name, str):
+                raise Untranslatable("%s.c_param key %r" % (cls.__name__, name))
+            c, req = code(name, cls.__name__, spec)
+            rows.append("  mkPS %s %s %s" % (coq_str(name), c, "true" if req else "false"))
+        return "Definition %s : list pspec := [\n%s\n].\n" % (defname, ";\n".join(rows))
+
+    for must, cls in ((("iss", "sub", "aud", "exp", "iat", "nonce", "azp", "at_hash", "c_hash"), oidc.IdToken),
+                      (("state", "code", "iss", "client_id", "id_token", "access_token"), oidc.AuthorizationResponse),
+                      (("access_token", "token_type", "id_token"), oidc.AccessTokenResponse),
+                      (("sub",), oidc.OpenIDSchema)):
+        for m in must:
+            if m not in cls.c_param:
+                raise Untranslatable("%s no longer declares %r" % (cls.__name__, m))
+    nst = oidc.NONCE_STORAGE_TIME
+    if not isinstance(nst, int) or isinstance(nst, bool):
+        raise Untranslatable("NONCE_STORAGE_TIME = %r" % (nst,))
+    vargs = oidc.ID_TOKEN_VERIFY_ARGS
+    cwv = oidc.CLAIMS_WITH_VERIFIED
+    if not all(isinstance(x, str) for x in list(vargs) + list(cwv)):
+        raise Untranslatable("ID_TOKEN_VERIFY_ARGS / CLAIMS_WITH_VERIFIED are not lists of str")
+    if not (isinstance(IDT2REG, dict) and all(isinstance(k, str) and isinstance(v, str) for k, v in IDT2REG.items())):
+        raise Untranslatable("IDT2REG = %r" % (IDT2REG,))
+    vcn = idpyoidc.verified_claim_name("X")
+    if not vcn.endswith("_X"):
+        raise Untranslatable("verified_claim_name('X') = %r" % vcn)
+    text = ("(* GENERATED by harness/gen_tables.py (gen_rp_tables) from the current /repo/src - do not edit. *)\n"
+            "From Coq Require Import String.\nFrom Verif Require Import Lib.Base Lib.RpTy.\nOpen Scope string_scope.\n\n"
+            + table("idtoken_params", oidc.IdToken) + "\n"
+            + table("authz_resp_params", oidc.AuthorizationResponse) + "\n"
+            + table("token_resp_params", oidc.AccessTokenResponse) + "\n"
+            + table("userinfo_params", oidc.OpenIDSchema) + "\n"
+            + "Definition id_token_verify_args : list pystr := [%s].\n" % "; ".join(coq_str(x) for x in vargs)
+            + "Definition claims_with_verified : list pystr := [%s].\n" % "; ".join(coq_str(x) for x in cwv)
+            + "Definition idt2reg : list (pystr * pystr) := [%s].\n" % "; ".join(
+                "(%s, %s)" % (coq_str(k), coq_str(v)) for k, v in IDT2REG.items())
+            + "Definition verified_prefix : pystr := %s.\n" % coq_str(vcn[:-1])
+            + "Definition nonce_storage_time : Z := (%d)%%Z.\n" % nst)
+    emit(outdir, "RpTables.v", text)
+
+
 def main():
     outdir = sys.argv[1]
     os.makedirs(outdir, exist_ok=True)
@@ -527,6 +609,7 @@ def main():
         (gen_impexp_tables, "ImpExpTables.v"),
         (gen_pkce_tables, "PkceTables.v"),
         (gen_schema, "Schema.v"),
+        (gen_rp_tables, "RpTables.v"),
     ]
     rc = 0
     for fn, fname in GENERATORS:
